@@ -463,7 +463,7 @@ def build():
                    "result == done and completions() == (1 if done else 0)"),
                   ("not done: nothing but the remaining-ticks bookkeeping changes",
                    "implies(not done, self._ticks == old(self._ticks) and self.running == old(self.running) and "
-                   "self.timer == old(self.timer))")],
+                   "self.timer == old(self.timer) and pause_pending() == old(pause_pending()))")],
          emits=lambda I, env, res: (emit(I, "timer_complete", via="contract") if I.ctx.branch(I.force(res).t) else None),
          modifies=TM, raises={})
     C.fn("Timer.stop",
@@ -485,6 +485,16 @@ def build():
                    "self.running == False and self.timer is None and not pause_pending() and n_control_removed() == 1"),
                   ("the count is kept", "self._ticks == old(self._ticks)")],
          modifies=["self.running", "self.timer", "self.delay.pending"], raises={})
+    C.fn("Timer.start", params=dict(kwargs=Opaque("Kwargs")),
+         ensures=[("S1: a timer that is started (by hand, by a control event or by the delayed un-pause) runs with one "
+                   "periodic tick and has NO un-pause delay left: a stale delayed start cannot fire into a later pause",
+                   "implies(not old(self.running) and completions() == 0, self.running and self.timer is not None and "
+                   "not pause_pending() and posted_started() == 1 and n_intervals() == 1)"),
+                  ("S2: starting a running timer does nothing",
+                   "implies(old(self.running), self.running and posted_started() == 0 and n_intervals() == 0 and "
+                   "self.timer == old(self.timer) and self._ticks == old(self._ticks))"),
+                  ("the count is not moved by a start", "implies(completions() == 0, self._ticks == old(self._ticks))")],
+         modifies=TM, raises={})
     C.fn("Timer.pause", params=dict(timer_value=Const(0)),
          ensures=[("paused: not running and no periodic tick left", "self.running == False and self.timer is None"),
                   ("count unchanged", "self._ticks == old(self._ticks)")],
@@ -526,3 +536,14 @@ def build():
     C.assume("A-FLOAT: times are mathematical reals")
     C.assume("A-RELY: a user callback only changes delays through the public DelayManager API (D1 preserved)")
     return C
+
+
+def build_extra():
+    # 'a delay does not fire after its owner stopped': Mode.stop clears the mode's delays at once, before the stopping
+    # queue event can be held by anybody (C07's contract on Mode.stop, clause M7)
+    from . import C07
+    c07 = C07.build()
+    c07.pid = "C13b"
+    c07.replay_pid = "C07"
+    c07.only_verify = ["Mode.stop"]
+    return [c07]
